@@ -14,7 +14,7 @@ from checks.common.history import Failure, explore
 PROP = 'C11'
 LEVEL = 'exploration'
 SHARDS = {'quick': 4, 'thorough': 16}
-BUDGET_S = {'quick': 45, 'thorough': 420}
+BUDGET_S = {'quick': 150, 'thorough': 420}
 RULE = ('seeded histories interleaving list-style (add/update/remove/discard/pop(i)/clear/sort/reverse) and '
         'set-style operations (|=,&=,-=,^=, *_update with 0-3 operands, union/intersection/difference with 0-3 '
         'operands, symmetric_difference, operators incl. reflected, issubset/issuperset/isdisjoint) with '
@@ -399,7 +399,7 @@ class Check(object):
         return {'kind': 'long', 'style': 'medium', 'ops': ops}
 
     def gen_long(self, r, ctx):
-        big = ctx is None or ctx.thorough or r.random() < 0.5
+        big = ctx is None or ctx.thorough
         size = r.randint(4000, 10000) if big else r.randint(1500, 4000)
         style = r.choice(['scattered', 'scattered', 'cross-eighth', 'tail', 'alternating', 'mixed'])
         ops = [['update', [['list', list(range(size))]]]]
@@ -530,10 +530,10 @@ class Check(object):
 
 
 def run(ctx):
-    n = {'quick': 700, 'thorough': 15000}[ctx.tier]
+    n = {'quick': 300, 'thorough': 15000}[ctx.tier]
     explore(ctx, Check(False), n, 'short')
-    explore(ctx, Check('medium'), {'quick': 300, 'thorough': 6000}[ctx.tier], 'medium')
-    explore(ctx, Check(True), {'quick': 3, 'thorough': 20}[ctx.tier], 'long')
+    explore(ctx, Check('medium'), {'quick': 150, 'thorough': 6000}[ctx.tier], 'medium')
+    explore(ctx, Check(True), {'quick': 1, 'thorough': 20}[ctx.tier], 'long')
 
 
 def replay(witness):
